@@ -468,7 +468,8 @@ mod request {
                         read_now
                     } == 0
                     {
-                        break;
+                        // The peer closed before the head was complete.
+                        return Err(Error::UnexpectedEnd);
                     }
                     // A short first segment may hold only part of the method or version token
                     // (the longest one is `PROPPATCH`): judge the start once enough bytes, or the
